@@ -64,6 +64,7 @@ func run(r *mon.Run) {
 		n = 40000
 	}
 	rsList := []int{1, 2, 16, 17, 100, 4095, 4096, 16383, 16384}
+	sharedSigners := map[*gen.Identity]*signedexchange.Signer{}
 	for i := 0; i < n; i++ {
 		if !r.Mine(i) {
 			continue
@@ -145,6 +146,12 @@ func run(r *mon.Run) {
 		}
 		var e *signedexchange.Exchange
 		var err error
+		if i%2 == 1 {
+			if sharedSigners[id] == nil {
+				sharedSigners[id] = &signedexchange.Signer{}
+			}
+			spec.Shared = sharedSigners[id]
+		}
 		p, pv := r.Call(fmt.Sprintf("sign/%d", i), nil, func() { e, _, err = spec.Build() })
 		if p || err != nil {
 			bad("SIGN-FAILED", fmt.Sprintf("the library refused / panicked on a valid exchange: %v %v", err, pv))
